@@ -4,35 +4,12 @@ From RW Require Import Base.Bytes Base.BytesFacts Fmt.Codec Fmt.CodecFacts Fmt.F
   Wal.CrashInv Wal.CrashFacts0 Wal.CrashFacts1 Wal.CrashFacts2 Wal.CrashFacts3 Wal.CrashFacts4 Wal.CrashFacts5
   Wal.CrashFacts6 Wal.CrashGlue Wal.CrashCalls1 Wal.CrashCalls2 Wal.CrashCalls3 Wal.CrashCalls4 Wal.CrashCalls6
   Wal.CrashCalls7 Wal.CrashCalls8 Wal.CrashCalls9 Wal.CrashCalls10 Wal.FaultSim Wal.FaultSim2 Wal.FaultInv Wal.FaultFacts2
-  Wal.FaultFacts3 Wal.FaultStore Gen.Constants.
+  Wal.FaultFacts3 Wal.FaultNames Wal.FaultStore Gen.Constants.
 From Coq Require Import ZifyN ZifyNat ZifyBool.
 Open Scope N_scope.
 
 (* the metadata commit succeeded but the file creation after it failed: the WAL
    refuses writes from now on; readers still see the old state *)
-Lemma fail_after_commit c nb nb' wm wc dc d' o nom alts defer ps :
-  nb <= nb' -> LInv c nb wc dc -> sp_of dc = nom ->
-  st_segs wm = st_segs wc -> st_tail wm = st_tail wc -> st_failed wm = true -> st_rotate wm = None -> st_closed wm = false ->
-  drel o d' (apply_act dc (ACommit ps)) ->
-  (forall n, o = Some n -> exists t, tail_info (st_segs wm) = Some t /\ name_of t = n) ->
-  DIs c nb' (apply_act dc (ACommit ps)) -> In (sp_of (apply_act dc (ACommit ps))) (candidates alts defer) ->
-  (forall n ps' s, o = Some n -> Some ps = Some ps' -> In s (ps_segs ps') -> name_of s <> n) ->
-  Mode c nb' wm d' nom defer /\ RD c nb' d' alts defer.
-Proof.
-  intros Hnb HL Hsp Hs Ht Hf Hr Hcl Hrel Hot HD Hcand Hunl.
-  set (dm := apply_act dc (ACommit ps)) in *.
-  pose proof HL as (_ & _ & HDc & HNc & _).
-  assert (HNdm : no_pend dm) by (intros n f Hl; apply (HNc n f Hl)).
-  split.
-  - right. split; [exact Hcl|]. right. right. split; [exact Hf|]. split; [exact Hr|].
-    exists wc, (sh dc), o. split; [eapply LInv_mono; [exact Hnb|apply LInv_sh; exact HL]|].
-    split; [rewrite (sp_of_sh_clean c nb wc dc HL); exact Hsp|]. split; [exact Hs|]. split; [exact Ht|].
-    split; [rewrite (drel_sh_eq _ _ _ Hrel); reflexivity|].
-    split; [destruct Hrel as (_ & _ & K & _); rewrite K; reflexivity|]. split; [apply (drel_NoDup _ _ _ Hrel)|].
-    split; [eapply drel_stale_ok; eauto|exact Hot].
-  - eapply (RD_stale_unlisted c nb' d' dm o); eauto.
-Qed.
-
 Lemma stale_batch_base c t t' f p defer : si_base t' = si_base t -> stale_batch c t f p defer -> stale_batch c t' f p defer.
 Proof. intros E H. unfold stale_batch in *. rewrite E. exact H. Qed.
 
@@ -66,11 +43,14 @@ Lemma live_delete c nb w e nom alts defer mn mx :
       RD c (nb + 1) (e_disk e') (alts ++ app_op (ODelete mn mx) alts) defer)).
 Proof.
   intros Hc Hmx Hnb HLive Hrot Hsp Hin.
-  pose proof HLive as (HL & _). pose proof (LInv_closed _ _ _ _ HL) as Hcl.
-  destruct (live_shadow c nb w e defer HLive) as (o & HR & Hst & Hso & Hon & Hg & Hstale).
-  set (ec := shenv e) in *. set (d := e_disk e) in *.
+  pose proof HLive as (HL & Hsto). pose proof (LInv_closed _ _ _ _ HL) as Hcl.
+  destruct (live_shadow c nb w e defer HLive) as (HR & Hg & Hex & HX).
+  set (X := stale_names (e_disk e)) in *. set (ec := shenv e) in *. set (d := e_disk e) in *.
   destruct (delete_range_ok c nb w ec mn mx nom Hc HL eq_refl Hrot Hnb Hsp Hmx) as (r0 & w0 & ec' & Hsl & Hres & HL' & Hsp' & Hext).
   destruct (delete_range c w mn mx e) as [[r w'] e'] eqn:Est. exists r, w', e'. split; [reflexivity|].
+  destruct (delete_range_sub _ _ _ _ _ _ _ _ Est) as (_ & Hms).
+  assert (Hgarb : forall n, In n X -> unlisted d n -> unlisted (e_disk e') n).
+  { intros n Hx Hu. apply (unlisted_keep c nb w d (e_disk e') n HL (Hex n Hx) Hu Hms). }
   set (o1 := ODelete mn mx) in *. set (alts' := alts ++ app_op o1 alts).
   assert (Hia : incl alts alts') by (intros x Hx; apply in_or_app; left; exact Hx).
   assert (Hina : In nom alts') by (apply Hia; exact Hin).
@@ -81,71 +61,72 @@ Proof.
   pose proof (lv_tok _ _ _ _ _ _ _ _ V) as (Hunsealed & _).
   pose proof (lv_tail _ _ _ _ _ _ _ _ V) as Htw.
   assert (Htinfo : tail_info (st_segs w) = Some t) by (rewrite (lv_segs _ _ _ _ _ _ _ _ V); apply tail_info_app).
-  assert (Hon' : forall n, o = Some n -> n = name_of t).
-  { intros n Ho. destruct (Hstale n Ho) as (t2 & _ & _ & -> & Ht2 & _). rewrite Htinfo in Ht2. inversion Ht2. reflexivity. }
-  assert (Hclr : clr o (ws_name tw) = None).
-  { destruct o as [n|]; [|reflexivity]. rewrite (Hon' n eq_refl), Tn. unfold clr. rewrite fname_eqb_refl. reflexivity. }
+  assert (HXg : forall n, In n X -> n <> name_of t -> unlisted (e_disk e') n).
+  { intros n Hx Hne. destruct (HX n Hx) as [(t' & Ht' & ->)|Hu]; [rewrite Htinfo in Ht'; inversion Ht'; subst; congruence|].
+    apply Hgarb; assumption. }
+  assert (HXw : forall n, In n X -> n <> name_of t -> forall s, In s (st_segs w) -> name_of s <> n).
+  { intros n Hx Hne s Hs. destruct (HX n Hx) as [(t' & Ht' & ->)|Hu]; [rewrite Htinfo in Ht'; inversion Ht'; subst; congruence|].
+    apply (Hu (persistent w) s (live_meta c nb w d HL) Hs). }
   assert (Hfin : forall dm, pfx ec ec' dm -> DP c (nb + 1) (fun x => x = nom \/ x = snd (step_spec nom o1)) dm) by (intros dm Hp; apply (ext_pfx _ _ _ _ Hext Hp)).
   assert (Hcand : forall x, x = nom \/ x = snd (step_spec nom o1) -> In x (candidates alts' defer)).
   { intros x [-> | ->]; [apply cand_alts; exact Hina|]. apply cand_alts.
     destruct (res_cases nom o1 r0 eq_refl Hres) as [(_ & Hacc)|(_ & _ & Hsnd)]; [eapply in_alts_app_op; eauto|rewrite Hsnd; exact Hina]. }
-  destruct (delete_range_lock o c w mn mx e ec r w' e' r0 w0 ec' HR Hg Est Hsl) as [(-> & -> & HR' & Hok & Herr)|(Hf' & -> & Hfail)].
+  assert (Hfin' : forall dm, pfx ec ec' dm -> DIs c (nb + 1) dm /\ In (sp_of dm) (candidates alts' defer)).
+  { intros dm Hp. destruct (Hfin dm Hp) as (HDm & HAm & _). split; [exact HDm|apply Hcand; exact HAm]. }
+  destruct (delete_range_lock X c w mn mx e ec r w' e' r0 w0 ec' HR Hg Est Hsl) as [(-> & -> & Herr & Hok)|(Hf' & -> & Hfail)].
   - split; [exact Hcl0|].
     destruct (res_cases nom o1 r0 eq_refl Hres) as [(-> & Hacc)|(Hne & Hacc & Hsnd)].
     + left. split; [reflexivity|]. exists (snd (step_spec nom o1)). split; [exact Hacc|].
-      assert (Hclean : R None e' ec' -> Live c (nb + 1) w0 (e_disk e') defer /\ sp_of (sh (e_disk e')) = snd (step_spec nom o1)).
-      { intros HRn. destruct (clean_after c (nb + 1) w0 e' ec' HL' HRn) as (HLs & HNs & Hsps). rewrite Hsp' in Hsps.
-        split; [apply live_clean; assumption|exact Hsps]. }
-      destruct o as [n|]; [|apply Hclean; exact HR'].
-      pose proof (Hon' n eq_refl) as En. subst n.
-      destruct (Hstale _ eq_refl) as (t2 & f & p & _ & Ht2 & Hf & Hp & Hsb).
-      assert (t2 = t) by (rewrite Htinfo in Ht2; inversion Ht2; reflexivity). subst t2.
-      destruct (Hok eq_refl (name_of t) t tw eq_refl Htinfo eq_refl Hunsealed Htw Tn His) as [(ti' & Hti' & Hn' & Htl & Hkeep)|HRn]; [|apply Hclean; exact HRn].
-      (* the tail and its stale batch survive the head truncation *)
-      specialize (Hkeep (keeps_tail_view V)). fold d in Hkeep. rewrite Hf in Hkeep.
-      destruct HR' as (Hrel' & _).
-      split.
-      * split; [rewrite (drel_sh_eq _ _ _ Hrel'); apply LInv_sh; exact HL'|].
-        right. exists ti', f, p. split; [exact Hti'|]. split; [rewrite Hn'; exact Hkeep|]. split; [exact Hp|].
-        split; [rewrite Hn'; eapply drel_stale_ok; [exact Hrel'|apply HL']|].
-        apply (stale_batch_base c t ti' f p defer (name_base _ _ Hn') Hsb).
-      * rewrite (drel_sh_eq _ _ _ Hrel'), (sp_of_sh_clean c _ w0 _ HL'). exact Hsp'.
+      destruct (Hok eq_refl) as [(-> & -> & Eec)|[(ns & HRd & Hfate)|(ns & X' & HRd & Hincl & Htl)]].
+      * split; [eapply Live_mono; [| |exact HLive]; [lia|apply incl_refl]|]. rewrite Eec in Hsp'. exact Hsp'.
+      * destruct (Rd_live c (nb + 1) _ w0 e' ec ec' X ns defer Hext HL' HRd) as (HLv & Hsps); [|split; [exact HLv|rewrite Hsps; exact Hsp']].
+        intros n f p Hx Hni Hl Hp. destruct (fname_eqb n (name_of t)) eqn:En; [|right; apply (HXg n Hx); apply fname_eqb_neq; exact En].
+        apply fname_eqb_eq in En. subst n.
+        destruct (Hfate t Htinfo) as [(ti' & Hti' & Hn' & _ & Hkeep)|K]; [|contradiction].
+        specialize (Hkeep (keeps_tail_view V)). fold d in Hkeep. rewrite Hl in Hkeep.
+        destruct (Hsto (name_of t) f p (eq_sym Hkeep) Hp) as [(t2 & Ht2 & _ & Hsb)|Hu].
+        -- rewrite Htinfo in Ht2. inversion Ht2; subst t2. left. exists ti'. split; [exact Hti'|]. split; [symmetry; exact Hn'|].
+           apply (stale_batch_base c t ti' f p defer (name_base _ _ Hn') Hsb).
+        -- exfalso. apply (Hu (persistent w) t (live_meta c nb w d HL)); [|reflexivity].
+           cbn [persistent ps_segs]. rewrite (lv_segs _ _ _ _ _ _ _ _ V). apply in_or_app. right. left. reflexivity.
+      * destruct (Rd_live c (nb + 1) _ w0 e' ec ec' X' ns defer Hext HL' HRd) as (HLv & Hsps); [|split; [exact HLv|rewrite Hsps; exact Hsp']].
+        intros n f p Hx Hni Hl Hp. right. apply (HXg n (Hincl n Hx)). intros ->.
+        destruct (Htl t tw Htinfo Hunsealed Htw Tn His) as [K|K]; contradiction.
     + right. split; [exact Hne|].
       destruct (Herr Hne) as [Hfl|(-> & -> & Eec)]; [destruct HL' as (_ & K & _); congruence|].
       apply (live_out c (nb + 1) w d nom alts' defer); [eapply Live_mono; [| |exact HLive]; [lia|apply incl_refl]|exact Hsp|exact Hina].
   - (* the real run failed at an I/O action *)
-    assert (Hfailmode : forall ps, w' = set_failed w -> drel o (e_disk e') (apply_act (e_disk ec) (ACommit ps)) ->
-              pfx ec ec' (apply_act (e_disk ec) (ACommit ps)) -> dk_meta (e_disk ec') = Some ps ->
-              (forall n ti, o = Some n -> tail_info (st_segs w) = Some ti -> name_of ti = n -> si_sealed ti = false ->
-                            lookup n (dk_files (e_disk ec')) = None) ->
-              Mode c (nb + 1) w' (e_disk e') nom defer /\ RD c (nb + 1) (e_disk e') alts' defer).
-    { intros ps -> Hrel Hpfx Hmeta Hgone. destruct (Hfin _ Hpfx) as (HDm & HAm & _).
-      apply (fail_after_commit c nb (nb + 1) (set_failed w) w (sh d) (e_disk e') o nom alts' defer ps ltac:(lia) HL Hsp eq_refl eq_refl eq_refl Hrot Hcl Hrel).
-      - intros n Ho. exists t. split; [exact Htinfo|symmetry; apply Hon'; exact Ho].
-      - exact HDm.
-      - apply Hcand. exact HAm.
-      - intros n ps' s Ho K. inversion K; subst ps'.
-        apply (unlisted_of_final c (nb + 1) w0 (e_disk ec') (apply_act (sh d) (ACommit ps)) n ps HL' Hmeta eq_refl); [|reflexivity].
-        apply (Hgone n t Ho Htinfo (eq_sym (Hon' n Ho)) Hunsealed). }
-    destruct Hfail as [[(-> & Hd)|(Ew & ps & Hrel & Hpfx & Hmeta & Hgone)]|[(tw1 & Htw1 & _ & Hn0 & -> & Hwr)|
-                       (tw1 & tw' & e1 & ec1 & o' & Htw1 & Hfsc & Hfs & HR1 & _ & Ho' & Hsh1 & Hrest)]].
+    destruct Hfail as [[(-> & Hd)|(-> & ps & Hpc & Hmeta & Hgone)]|[(tw1 & Htw1 & _ & Hn0 & -> & Hwr)|
+                       (tw1 & tw' & e1 & ec1 & X' & Htw1 & Hfsc & Hfs & HR1 & _ & HX' & Hsh1 & Hrest)]].
     + split; [exact Hcl|]. right. split; [discriminate|]. rewrite Hd.
       apply (live_out c (nb + 1) w d nom alts' defer); [eapply Live_mono; [| |exact HLive]; [lia|apply incl_refl]|exact Hsp|exact Hina].
-    + split; [rewrite Ew; exact Hcl|]. right. split; [discriminate|]. apply (Hfailmode ps Ew Hrel Hpfx Hmeta Hgone).
+    + split; [exact Hcl|]. right. split; [discriminate|].
+      assert (Hmd' : dk_meta (e_disk e') = Some ps).
+      { destruct Hpc as (dm & (_ & M & _) & _ & Hm & _). rewrite M. exact Hm. }
+      apply (fail_after_commit c nb (nb + 1) (set_failed w) w (sh d) (e_disk e') X nom alts' defer ps ec ec' ltac:(lia) HL eq_refl Hsp eq_refl eq_refl eq_refl Hrot Hcl Hpc Hfin').
+      * intros n Hx. destruct (fname_eqb n (name_of t)) eqn:En; [left; exists t; split; [exact Htinfo|apply fname_eqb_eq; exact En]|right].
+        apply (HXw n Hx). apply fname_eqb_neq. exact En.
+      * intros n s Hx Hs. destruct (fname_eqb n (name_of t)) eqn:En.
+        -- apply fname_eqb_eq in En. subst n.
+           pose proof HL' as (_ & _ & _ & _ & Hm0 & _). rewrite Hmeta in Hm0. inversion Hm0; subst ps.
+           intros Hn. apply (LInv_listed_files c (nb + 1) w0 _ s HL' Hs). rewrite Hn. apply (Hgone t Htinfo Hunsealed).
+        -- apply fname_eqb_neq in En. apply (HXg n Hx En ps s Hmd' Hs).
     + (* the forced seal failed *)
       split; [exact Hcl|]. right. split; [discriminate|].
       rewrite Htw in Htw1. inversion Htw1; subst tw1.
       destruct Hwr as [Hd|(Hrel & Hpfx)].
       * rewrite Hd. apply (live_out c (nb + 1) w d nom alts' defer); [eapply Live_mono; [| |exact HLive]; [lia|apply incl_refl]|exact Hsp|exact Hina].
-      * rewrite Hclr in Hrel. change (e_disk ec) with (sh d) in Hrel, Hpfx.
+      * change (e_disk ec) with (sh d) in Hrel, Hpfx.
         destruct (force_act_pend V Hc Hse ltac:(lia)) as (len & b & Ea & Eb & Hlt).
         destruct (Hfin _ Hpfx) as (HDm & _).
-        destruct (stale_after_write c nb (nb + 1) w (sh d) (e_disk e') S t f0 tw defer _ len b V Hse ltac:(lia) Ea Hlt HDm Hrel) as (HLv & Hspv).
+        destruct (stale_after_write c nb (nb + 1) w (sh d) (e_disk e') (rem (ws_name tw) X) S t f0 tw defer _ len b V Hse ltac:(lia) Ea Hlt HDm Hrel) as (HLv & Hspv).
+        { rewrite <- Tn. apply rem_not. }
+        { intros n Hx. apply rem_in in Hx. destruct Hx as (Hx & Hn). apply (HXg n Hx). rewrite <- Tn. exact Hn. }
         { rewrite Eb. intros K. congruence. }
         rewrite Hsp in Hspv. apply (live_out c (nb + 1) w (e_disk e') nom alts' defer); assumption.
     + (* the tail was sealed, then the state transaction failed *)
       rewrite Htw in Htw1. inversion Htw1; subst tw1.
-      assert (Eo' : o' = None) by (rewrite (Ho' His); exact Hclr). subst o'.
+      specialize (HX' His). subst X'.
       assert (Hn1 : 1 <= llen (df_ents f0)).
       { rewrite seg_force_seal_eq, His in Hfsc. change (0 <? 0) with false in Hfsc. cbv iota in Hfsc.
         destruct (ws_n tw =? 0) eqn:Z; [inversion Hfsc|]. lia. }
@@ -157,24 +138,35 @@ Proof.
       replace (0 <? ws_index_start tw') with true in HLS by lia.
       change (e_disk ec) with (sh d) in HspS. rewrite Hsp in HspS.
       destruct HR1 as (Hrel1 & _).
-      assert (HN1 : no_pend (e_disk e1)) by (eapply drel_nopend; [exact Hrel1|apply HLS]).
-      destruct Hrest as [(-> & Hd & Hpfx)|(-> & ps & Hrel & Hpfx & Hmeta)].
+      assert (HXr : forall n, In n (rem (ws_name tw) X) -> In n X /\ n <> name_of t).
+      { intros n Hx. apply rem_in in Hx. rewrite Tn in Hx. exact Hx. }
+      destruct Hrest as [(-> & Hd & Hpfx)|(-> & ps & Hpc & Hmeta)].
       * (* the commit failed: the tail stays sealed *)
-        split; [exact Hcl|]. right. split; [discriminate|]. rewrite Hd.
-        assert (HLs : LInv c (nb + 1) (set_rot (set_tail w (Some tw')) (Some (ws_index_start tw'))) (sh (e_disk e1))).
-        { rewrite (drel_sh_eq _ _ _ Hrel1). eapply LInv_mono; [|apply LInv_sh; exact HLS]. lia. }
-        assert (Hsps : sp_of (sh (e_disk e1)) = nom) by (rewrite (drel_sh_eq _ _ _ Hrel1), (sp_of_sh_clean c nb _ _ HLS); exact HspS).
+        split; [exact Hcl|]. right. split; [discriminate|].
+        assert (HLs : LInv c (nb + 1) (set_rot (set_tail w (Some tw')) (Some (ws_index_start tw'))) (sh (e_disk e'))).
+        { rewrite Hd, (drel_sh_eq _ _ _ Hrel1). eapply LInv_mono; [|apply LInv_sh; exact HLS]. lia. }
+        assert (Hsps : sp_of (sh (e_disk e')) = nom) by (rewrite Hd, (drel_sh_eq _ _ _ Hrel1), (sp_of_sh_clean c nb _ _ HLS); exact HspS).
+        assert (HN1 : no_pend (e_disk ec1)) by apply HLS.
         split.
         -- right. split; [exact Hcl|]. right. left. split; [|exact Hsps].
-           exists tw'. split; [reflexivity|]. split; [exact Hidx|]. split; [exact Hrot|]. split; [exact HLs|exact HN1].
-        -- eapply RD_of_clean; [exact HLs|exact HN1|rewrite Hsps; exact Hina].
+           exists tw'. split; [reflexivity|]. split; [exact Hidx|]. split; [exact Hrot|]. split; [exact HLs|].
+           intros n f p Hl Hp. rewrite Hd in Hl.
+           assert (Hx : In n (rem (ws_name tw) X)) by (apply (drel_stale_ok _ _ _ Hrel1 HN1 n f Hl); congruence).
+           destruct (HXr n Hx) as (Hx1 & Hx2). apply (HXg n Hx1 Hx2).
+        -- rewrite Hd. apply (RD_rel c (nb + 1) (e_disk e1) (e_disk ec1) (rem (ws_name tw) X) alts' defer).
+           ++ eapply DIs_mono; [|apply HLS]. lia.
+           ++ exact HN1.
+           ++ exact Hrel1.
+           ++ intros n Hx. destruct (HXr n Hx) as (Hx1 & Hx2). apply (unlisted_meta (e_disk e') _ n); [|apply (HXg n Hx1 Hx2)].
+              rewrite Hd. symmetry. apply Hrel1.
+           ++ apply cand_alts. rewrite HspS. exact Hina.
       * (* the commit succeeded, the creation of the new tail failed *)
         split; [exact Hcl|]. right. split; [discriminate|].
-        destruct (Hfin _ Hpfx) as (HDm & HAm & _).
+        assert (Hmd' : dk_meta (e_disk e') = Some ps).
+        { destruct Hpc as (dm & (_ & M & _) & _ & Hm & _). rewrite M. exact Hm. }
         match type of HLS with LInv _ _ ?wS _ =>
-          apply (fail_after_commit c nb (nb + 1) (set_failed (set_tail w (Some tw'))) wS (e_disk ec1) (e_disk e') None nom alts' defer ps ltac:(lia) HLS HspS eq_refl eq_refl eq_refl Hrot Hcl Hrel) end.
-        -- intros n K; discriminate.
-        -- exact HDm.
-        -- apply Hcand. exact HAm.
-        -- intros n ps' s K; discriminate.
+          apply (fail_after_commit c nb (nb + 1) (set_failed (set_tail w (Some tw'))) wS (e_disk ec1) (e_disk e') (rem (ws_name tw) X) nom alts' defer ps ec1 ec' ltac:(lia) HLS eq_refl HspS eq_refl eq_refl eq_refl Hrot Hcl Hpc) end.
+        -- intros dm Hp. apply Hfin'. eapply pfx_shift; [apply Hsh1|exact Hp].
+        -- intros n Hx. right. destruct (HXr n Hx) as (Hx1 & Hx2). apply (HXw n Hx1 Hx2).
+        -- intros n s Hx Hs. destruct (HXr n Hx) as (Hx1 & Hx2). apply (HXg n Hx1 Hx2 ps s Hmd' Hs).
 Qed.
